@@ -297,7 +297,44 @@ def gen_mixed(rng):
             ex['port'] = 8000 + i
             ex['url'] = 'http://h:%d/p%d' % (8000 + i, i)
             fetches.append(ex)
+    if rng.random() < 0.4:
+        # two (or three) fetches from ONE host:port over a kept-alive connection; the server may drop the idle connection only
+        # after the next request has been written to it (EOF before any status line)
+        port = 8500
+        pos = rng.randrange(len(fetches) + 1)
+        pair = []
+        for j in range(rng.choice([2, 2, 3])):
+            body = bytes(rng.randrange(256) for _ in range(rng.choice([0, 5, 300])))
+            header = b'HTTP/1.1 200 OK\r\nContent-Type: text/html\r\nContent-Length: %d\r\n\r\n' % len(body)
+            pair.append({'kind': 'http', 'keepalive': True, 'port': port, 'url': 'http://h:%d/k%d' % (port, j),
+                         'stage': 'ok' if j == 0 else rng.choice(['stale-keepalive', 'stale-keepalive', 'ok']),
+                         'header': header, 'body': body, 'framing': 'length', 'status': 200, 'mime': 'text/html', 'cuts': []})
+        fetches[pos:pos] = pair
     return {'compress': rng.random() < 0.5, 'digests': rng.random() < 0.8, 'cdx': rng.random() < 0.7, 'fetches': fetches}
+
+
+class KeepAliveHttp:
+    """One connection to the keep-alive host: answers the first request it sees with Content-Length framing and stays open;
+    a later request whose plan says 'stale-keepalive' gets no byte, only the close (the server had dropped the idle
+    connection).  A request that arrives as the FIRST one of a connection is always answered."""
+
+    def __init__(self, plans, feeders):
+        self.plans = plans
+        self.feeders = feeders
+        self.buf = b''
+        self.count = 0
+
+    def on_write(self, conn, data):
+        self.buf += data
+        while b'\r\n\r\n' in self.buf:
+            head, _, self.buf = self.buf.partition(b'\r\n\r\n')
+            path = head.split(b' ')[1].decode('latin-1')
+            plan = self.plans.get(path)
+            self.count += 1
+            if plan is None or (self.count > 1 and plan['stage'] == 'stale-keepalive'):
+                conn.close()
+                return
+            conn.send(plan['header'] + plan['body'])
 
 
 LISTING = b'-rw-r--r-- 1 u g 3 Jan 01 2020 a.txt\r\n'
@@ -440,6 +477,9 @@ def run_mixed(case, seed):
                     net.listen('10.0.0.1', f['port'], (lambda f=f: MixedFtp(f, feeders)))
                 if f['stage'] != 'data-refused':
                     net.listen('10.0.0.1', f['dport'], (lambda f=f: MixedData(f, feeders)))
+            elif f.get('keepalive'):
+                plans = {'/' + x['url'].rsplit('/', 1)[1]: x for x in case['fetches'] if x.get('keepalive')}
+                net.listen('10.0.0.1', f['port'], (lambda plans=plans: KeepAliveHttp(plans, feeders)))
             elif f['stage'] != 'refused':
                 net.listen('10.0.0.1', f['port'], (lambda f=f: MixedHttp(f, feeders)))
         with net:
